@@ -333,14 +333,16 @@ package journal
 //@   ensures result.1 == nil ==> wfBuilder(result.0)
 //
 // Build: the journal holds exactly the days of the builder - every listed day is a day of the builder and
-// every day of the builder is listed (dict.SortedValues under contract). That they are listed in the order of
-// their dates rests on sort.Slice and is not stated here; the well-formedness of the days' contents that the
+// every day of the builder is listed, in the order of their dates (dict.SortedValues under contract: sorted by
+// the comparator handed over, CompareDays, whose own contract is the order of the dates; sort.Slice itself is
+// trusted to sort). The well-formedness of the days' contents that the
 // transcoder relies on is a trusted clause (established by Builder.Add, not restated here).
 //@ func (*Builder).Build
 //@   requires wfBuilder(j)
 //@   modifies nothing
 //@   ensures result != nil && fresh(result)
 //@   ensures [trusted] transcodable(result)
+//@   ensures [C05] [C06] @sorted: forall a int, b int :: {result.Days[a], result.Days[b]} 0 <= a && a < b && b < len(result.Days) ==> result.Days[a].Date <= result.Days[b].Date
 //@   ensures [C05] @days: forall i int :: {result.Days[i]} 0 <= i && i < len(result.Days) ==> (exists k time.Time :: (k in j.days) && j.days[k] == result.Days[i])
 //@   ensures [C05] @all: forall k time.Time :: {key(j.days, k)} (k in j.days) ==> (exists i int :: 0 <= i && i < len(result.Days) && result.Days[i] == j.days[k])
 //
